@@ -67,16 +67,16 @@ def run(ctx):
     ctx.harness("./cmd/c04")
     thm = "C04.%s (model = spec); impl != model on this input"
     ctx.diff(area="val", driver="drv_c04", n={"quick": 60000, "thorough": 3000000},
-             theorem=thm % "toString_exact / toString_canonical / fromString_toString / fromString_comma / withSign_forms")
+             theorem=thm % "toString_shape / toString_exact / toString_canonical / roundtrip_configs64 / roundtrip_configs128 / comma_shape / withSign_forms")
     ctx.diff(area="parse", driver="drv_c04", n={"quick": 120000, "thorough": 6000000},
              trivial=lambda l, o: o.startswith("exp"),
              tagger=lambda l, o: "parse:" + o.split(" ", 1)[0].split(":", 1)[0],
-             theorem=thm % "fromString_literal / fromString_total")
+             theorem=thm % "fromString_literal64 / fromString_literal128 / fromString_total64 / fromString_total128")
     ctx.diff(area="as", driver="drv_c04", n={"quick": 60000, "thorough": 3000000},
              tagger=lambda l, o: "as:" + o.split(" ")[-1].split(":", 1)[0],
-             theorem=thm % "checkedAs_int_iff / as_eq_checkedAs")
+             theorem=thm % "checkedAs_int_iff64 / checkedAs_int_iff128 / as_eq_checkedAs64 / as_eq_checkedAs128")
     ctx.diff(area="txtfn", driver="drv_c04", n={"quick": 30000, "thorough": 1000000},
-             theorem=thm % "unquote_quoted / unquote_bare / commaNum laws")
+             theorem=thm % "unquote_quoted / unquote_bare / unquote_short / comma_only_adds_commas")
     _oracle(ctx, "float", {"quick": 60000, "thorough": 3000000},
             "CheckedAs/As to float32/float64: succeeds iff the shortest round-trip decimal of the float nearest to "
             "raw/10^D denotes exactly raw/10^D (big.Rat + strconv)")
